@@ -207,7 +207,10 @@ def hazards(root, url):
                   {"ip": "::1", "challenge": "dns-01"}, {"dns": "a", "ip": "1.1.1.1", "challenge": "http-01"},
                   {"challenge": "http-01"}, {"dns": "x." * 200 + "org", "challenge": "bogus-01"},
                   {"dns": "K.example", "challenge": "tls-alpn-01"},
-                  {"dns": "*." + "ü" * 80 + ".example", "challenge": "dns-01"}):
+                  {"dns": "*." + "ü" * 80 + ".example", "challenge": "dns-01"},
+                  {"dns": "\u0080" * 4000 + "\U001061c2" + ".example", "challenge": "http-01"},
+                  {"dns": "x" * 64 + ".example", "challenge": "http-01"},
+                  {"dns": "ü" * 63 + ".example", "challenge": "http-01"}):
         c = base(root, url)
         c["certificate"][0]["identifiers"] = [ident]
         yield ("identifier-%s" % json.dumps(ident)[:40], c, {})
